@@ -154,9 +154,10 @@ def _case(args):
     if isinstance(a, tuple) or isinstance(b, tuple):
         return rec
     import oracle_derivs
+    lang_only = False
     if not (oracle_derivs.acyclic(a.rules) and oracle_derivs.acyclic(b.rules)):
-        rec['cyclic'] = True       # explicit ambiguity is complete only without derivation cycles (C04): no comparison
-        return rec
+        rec['cyclic'] = True       # explicit ambiguity is complete only without derivation cycles (C04): trees are not compared, the language is
+        lang_only = True
     texts = []
     for _ in range(4):
         try:
@@ -169,7 +170,8 @@ def _case(args):
         for p in (a, b):
             try:
                 with guarded(6):
-                    outs.append(tree_set(p.parse(text)))
+                    t_ = p.parse(text)
+                    outs.append(['accepted'] if lang_only else tree_set(t_))
             except UnexpectedInput:
                 outs.append('reject')
             except Timeout:
